@@ -10,8 +10,8 @@ import (
 	"os"
 	"regexp"
 	"sort"
-	"sync"
 	"strings"
+	"sync"
 
 	"github.com/tychoish/fun"
 	"github.com/tychoish/fun/adt"
@@ -379,6 +379,13 @@ func init() {
 					{"Extend", func(ctx context.Context, a int) { s.Extend(other) }},
 					{"MarshalJSON", func(ctx context.Context, a int) { _, _ = s.MarshalJSON() }},
 					{"UnmarshalJSON", func(ctx context.Context, a int) { _ = s.UnmarshalJSON([]byte(`[1,2,7]`)) }},
+					// documented as safe to call more than once: the set keeps
+					// the mutex it has
+					{"Synchronize(again)", func(ctx context.Context, a int) { s.Synchronize() }},
+					{"WithLock(refused)", func(ctx context.Context, a int) {
+						defer func() { _ = recover() }()
+						s.WithLock(&sync.Mutex{})
+					}},
 				}
 			}
 		}},
